@@ -198,7 +198,7 @@ type directoryCache struct {
 	fadvDontNeed bool
 
 	closed   bool
-	closedMu sync.Mutex
+	closedMu sync.RWMutex
 }
 
 func (dc *directoryCache) Get(key string, opts ...Option) (Reader, error) {
@@ -294,7 +294,12 @@ func (dc *directoryCache) Add(key string, opts ...Option) (Writer, error) {
 	w := &writer{
 		WriteCloser: wip,
 		commitFunc: func() error {
-			if dc.isClosed() {
+			// Keep the cache from being closed until the commit completes. Otherwise
+			// Close can remove the cache directory between the check and MkdirAll
+			// and the directory is left behind after Close.
+			dc.closedMu.RLock()
+			defer dc.closedMu.RUnlock()
+			if dc.closed {
 				return fmt.Errorf("cache is already closed")
 			}
 			// Commit the cache contents
